@@ -16,7 +16,7 @@ ExportedVariants == ndJsonSerialize(IOEnv.VERIF_OUT_VARIANTS, [i \in 1..Len(Vari
 
 CaseSeq == SetToSeq(AllCases)
 ExportedCases == ndJsonSerialize(IOEnv.VERIF_OUT_CASES,
-                    [i \in 1..Len(CaseSeq) |-> [c |-> CaseSeq[i], delta |-> Delta(CaseSeq[i]), phval |-> PhValue(CaseSeq[i]), adv |-> AdvOf(CaseSeq[i]),
+                    [i \in 1..Len(CaseSeq) |-> [c |-> CaseSeq[i], delta |-> Delta(CaseSeq[i]), phval |-> PhValue(CaseSeq[i]), adv |-> AdvOf(CaseSeq[i]), multi |-> MultiOf(CaseSeq[i]),
                                               vias |-> SetToSeq(ViasFor(CaseSeq[i]) \ {"decode", "cli"})]])
 
 \* every map level the documentation shows exists in the real config structs
